@@ -33,12 +33,20 @@ enum Kind {
     V2HeaderShortSignature,
     V2PresignedShortSignature,
     V4PostFormShortSignature,
+    /// STS-style request to a custom route: scope service `sts`, no x-amz-content-sha256 header, so the signature covers
+    /// the SHA-256 of the body; honest / body altered after signing
+    V4StsNoDigest,
+    V4StsNoDigestBodyAltered,
 }
 
 const KINDS: &[Kind] = &[
     Kind::Anonymous, Kind::V4Header, Kind::V4Presigned, Kind::V2Header, Kind::V2Presigned, Kind::V4BadSignature, Kind::V2BadSignature, Kind::V4UnknownKey, Kind::V2UnknownKey, Kind::DuplicatedAuthorization,
-    Kind::MalformedAuthorization, Kind::V4PostForm, Kind::V4PostFormBadSignature, Kind::V4HeaderShortSignature, Kind::V2HeaderShortSignature, Kind::V2PresignedShortSignature, Kind::V4PostFormShortSignature,
+    Kind::MalformedAuthorization, Kind::V4PostForm, Kind::V4PostFormBadSignature, Kind::V4HeaderShortSignature, Kind::V2HeaderShortSignature, Kind::V2PresignedShortSignature, Kind::V4PostFormShortSignature, Kind::V4StsNoDigest, Kind::V4StsNoDigestBodyAltered,
 ];
+
+fn is_sts_no_digest(k: Kind) -> bool {
+    matches!(k, Kind::V4StsNoDigest | Kind::V4StsNoDigestBodyAltered)
+}
 
 fn is_post_form(k: Kind) -> bool {
     matches!(k, Kind::V4PostForm | Kind::V4PostFormBadSignature | Kind::V4PostFormShortSignature)
@@ -159,6 +167,17 @@ fn sign(c: &mut Case<'_>, kind: Kind, req: &mut Req, service: &str) -> Option<St
             Some(ak.into())
         }
         Kind::V4PostForm | Kind::V4PostFormBadSignature | Kind::V4PostFormShortSignature => unreachable!("built by post_form"),
+        Kind::V4StsNoDigest | Kind::V4StsNoDigestBodyAltered => {
+            let s = Signer { service: "sts".into(), ..signer };
+            s.sign_header_no_digest(req, &amz_signed);
+            if kind == Kind::V4StsNoDigestBodyAltered {
+                let i = c.t.below(req.body.len().max(1)).min(req.body.len().saturating_sub(1));
+                if let Some(b) = req.body.get_mut(i) {
+                    *b = if *b == b'x' { b'y' } else { b'x' };
+                }
+            }
+            Some(ak.into())
+        }
         Kind::V4HeaderShortSignature => {
             signer.sign_header(req, UNSIGNED, &amz_signed);
             let a = req.header("authorization")?.to_owned();
@@ -210,12 +229,13 @@ fn case(c: &mut Case<'_>) -> CaseResult {
     let keys = (auth_cfg != 0).then(default_keys);
     let provider_denies = (auth_cfg == 3).then(|| "AccountProblem".to_owned());
     let kind = *c.t.pick(KINDS);
-    let custom = !is_post_form(kind) && c.t.chance(48);
+    let custom = is_sts_no_digest(kind) || !is_post_form(kind) && c.t.chance(48);
     let op: &str = if is_post_form(kind) { "PutObject" } else if custom { "<custom-route>" } else { OPS[c.t.below(OPS.len())] };
     if !custom && (KNOWN_UNREACHABLE.contains(&op) || model().ops.get(op).is_none()) {
         return discard("operation not usable");
     }
-    let access = match c.t.below(6) {
+    let access = match c.t.below(7) {
+        6 => Some(AccessMode::TraitDefaults),
         0 => None,
         1 => Some(AccessMode::AllowAll),
         2 => Some(AccessMode::DenyAll),
@@ -278,7 +298,7 @@ fn case(c: &mut Case<'_>) -> CaseResult {
     let mut expect: Vec<String> = Vec::new();
     let mut expect_ok = true;
     let mut expect_deny_msg: Option<&str> = None;
-    let valid_sig = matches!(kind, Kind::V4Header | Kind::V4Presigned | Kind::V2Header | Kind::V2Presigned | Kind::V4PostForm);
+    let valid_sig = matches!(kind, Kind::V4Header | Kind::V4Presigned | Kind::V2Header | Kind::V2Presigned | Kind::V4PostForm | Kind::V4StsNoDigest);
     // a duplicated Authorization header is not a usable credential: the request is seen as carrying none (don't-care
     // whether that counts as "presenting a signature"); it must never be treated as authenticated
     let effective_anonymous = matches!(kind, Kind::Anonymous | Kind::DuplicatedAuthorization);
@@ -324,7 +344,8 @@ fn case(c: &mut Case<'_>) -> CaseResult {
         }
         if keys.is_some() {
             match &access {
-                None => {
+                // (an access object whose hooks all keep their default bodies behaves like no access object)
+                None | Some(AccessMode::TraitDefaults) => {
                     if identity == "<anonymous>" {
                         expect_ok = false;
                         expect_deny_msg = Some("Signature is required");
@@ -379,7 +400,7 @@ fn case(c: &mut Case<'_>) -> CaseResult {
         if out.log.iter().any(|l| (l.starts_with("backend") || l.starts_with("access") || l.starts_with("route")) && !l.ends_with("<anonymous>")) {
             return Err(c.fail("duplicated-authorization-authenticated", format!("log {:?}", out.log)));
         }
-        if keys.is_some() && out.log.iter().any(|l| l.starts_with("backend") || l.starts_with("route.call")) && (access.is_none() || matches!(access, Some(AccessMode::RequireCredentials))) && !route_overrides {
+        if keys.is_some() && out.log.iter().any(|l| l.starts_with("backend") || l.starts_with("route.call")) && (access.is_none() || matches!(access, Some(AccessMode::RequireCredentials | AccessMode::TraitDefaults))) && !route_overrides {
             return Err(c.fail("anonymous-ran-despite-default-rule", format!("log {:?}", out.log)));
         }
         return Ok(());
